@@ -129,7 +129,7 @@ func NewSpecDB() *SpecDB {
 }
 
 var clauseKW = map[string]bool{"requires": true, "ensures": true, "ghostensures": true, "modifies": true, "decreases": true, "loop": true,
-	"inline": true, "trusted": true, "pure": true, "tag": true, "noframe": true, "opaque": true, "unclaimed": true, "let": true}
+	"inline": true, "trusted": true, "pure": true, "tag": true, "noframe": true, "opaque": true, "unclaimed": true, "let": true, "oncallback": true}
 var topKW = map[string]bool{"func": true, "functype": true, "extern": true, "pred": true, "table": true, "specfn": true,
 	"axiom": true, "lemma": true, "ghostfield": true, "iface": true, "const": true, "ghostvar": true, "globalinv": true, "guardedby": true, "readers": true, "writers": true, "globalwriters": true, "mapranges": true}
 
@@ -300,6 +300,32 @@ func (db *SpecDB) LoadFile(path string, pkg string) error {
 				ls.Axioms = append(ls.Axioms, e)
 			}
 			cur.Lets = append(cur.Lets, ls)
+		case "oncallback":
+			// oncallback requires <expr>   |   oncallback keeps <lv>, <lv>
+			if cur == nil {
+				return fail("oncallback outside func")
+			}
+			kind, body := splitFirst(rest)
+			switch kind {
+			case "requires":
+				e, err := ParseExpr(body)
+				if err != nil {
+					return fail("%v", err)
+				}
+				cur.Clauses = append(cur.Clauses, &Clause{Kind: "cb-requires", Src: body, E: e, File: it.file, Line: it.line})
+			case "keeps":
+				c := &Clause{Kind: "cb-keeps", Src: body, File: it.file, Line: it.line}
+				for _, part := range splitTopLevel(body, ',') {
+					e, err := ParseExpr(part)
+					if err != nil {
+						return fail("%v", err)
+					}
+					c.Mods = append(c.Mods, e)
+				}
+				cur.Clauses = append(cur.Clauses, c)
+			default:
+				return fail("oncallback requires|keeps")
+			}
 		case "inline":
 			cur.Inline = true
 		case "trusted":
